@@ -512,12 +512,13 @@ func mergeFamilyDocs() []string {
 const handRuleSDL = `
 directive @rep repeatable on FIELD
 directive @once on FIELD
-type Query { f(i: Int, l: [Int], ll: [[Int]], lln: [[Int]!], o: In, req: Int! = 5, nn: Int!): Int g(lnn: [Int!]!): Int  a: A  b: B  u: U  i: I  s: String  e(v: E): E any(x: Any): Any one(x: One): Int num(fl: Float, id: ID, fls: [Float], o: Num): Int cc: C }
+type Query { f(i: Int, l: [Int], ll: [[Int]], lln: [[Int]!], o: In, req: Int! = 5, nn: Int!): Int g(lnn: [Int!]!): Int  a: A  b: B  u: U  i: I  s: String  e(v: E): E any(x: Any): Any one(x: One): Int num(fl: Float, id: ID, fls: [Float], o: Num): Int cc: C lo(os: [In!], oo: In2, ooo: [[In2]]): Int }
 interface I { x: Int }
 type A implements I { x: Int  z: Int  o: B  li: [Int]  lin: [Int]!  n: Int!  p: C }
 type B implements I { x: Int y: Int  z: String li: [Int]!  o: Int n: Int  p: C }
 type C { c: Int d: Int j(a: Int): Int }
 input Num { fl: Float id: ID }
+input In2 { inner: [In] one: In }
 union U = A | B
 enum E { RED GREEN }
 scalar Any
